@@ -42,7 +42,7 @@ impl ConstVars {
         
         Self {
 
-            actor:             format_ident!("actor"),
+            actor:             format_ident!("{}",crate::INTER_ACTOR),
             name:              format_ident!("name"),
             debut:             format_ident!("debut"),
             sender:            format_ident!("sender"),
